@@ -15,7 +15,7 @@ use poulpy_bin_fhe::blind_rotation::{
 use poulpy_core::EncryptionLayout;
 use poulpy_core::api::*;
 use poulpy_core::layouts::{
-    GLWE, GLWELayout, GLWESecret, GLWESecretPreparedFactory, LWE, LWEInfos, LWELayout, LWEPlaintext, LWESecret, prepared::GLWESecretPrepared,
+    GLWE, GLWELayout, GLWESecret, GLWESecretPreparedFactory, LWE, LWEInfos, LWELayout, LWEPlaintext, LWESecret, LWEToRef, prepared::GLWESecretPrepared,
 };
 
 fn mask_w(w: usize) -> u128 {
@@ -81,6 +81,74 @@ pub fn run(cfg: &Cfg, rep: &mut Report) {
     }
     if part.is_empty() || part == "blind" {
         run_blind(cfg, rep);
+    }
+    if (part.is_empty() || part == "modswitch") && BE_NAME == "fft64ref" {
+        run_modswitch(cfg, rep);
+    }
+}
+
+// ---------------------------------------------------------------------------------------------
+// modulus switch (public `mod_switch_2n`): every LWE radix 1..=24 against every domain size, incl. the multi-limb
+// regime base2k_lwe <= log2(2D) with and without a partial last limb (the blind path above always uses the GLWE radix)
+// ---------------------------------------------------------------------------------------------
+fn run_modswitch(cfg: &Cfg, rep: &mut Report) {
+    let mut rng = cfg.rng("c14-modswitch");
+    let mut idx = 0u64;
+    for log2d in 4..=13usize {
+        let two_d = 1usize << log2d;
+        for b in 1..=24usize {
+            for extra_limbs in 0..=2usize {
+                idx += 1;
+                if idx % cfg.nshards != cfg.shard {
+                    continue;
+                }
+                for dir in [LookUpTableRotationDirection::Left, LookUpTableRotationDirection::Right] {
+                    let size = log2d.div_ceil(b) + extra_limbs;
+                    let n_lwe = 24usize;
+                    let layout = LWELayout { n: (n_lwe as u32).into(), k: ((size * b) as u32).into(), base2k: (b as u32).into() };
+                    let mut lwe: LWE<Vec<u8>> = LWE::alloc_from_infos(&layout);
+                    let class = rng.below(4);
+                    for j in 0..size {
+                        for i in 0..=n_lwe {
+                            lwe.data_mut().at_mut(0, j)[i] = match class {
+                                0 => (1i64 << (b - 1)) - 1,
+                                1 => -(1i64 << (b - 1)),
+                                _ => rng.signed_bits(b),
+                            };
+                        }
+                    }
+                    let mut out = vec![0i64; n_lwe + 1];
+                    let desc = jo! {"backend" => BE_NAME, "path" => "modswitch", "two_d" => two_d, "lwe_base2k" => b, "lwe_size" => size, "dir" => format!("{dir:?}"), "digits" => class,
+                    "regime" => if b > log2d { "top_limb" } else if log2d % b == 0 { "multi_limb_exact_multiple" } else { "multi_limb_partial" }};
+                    let key = format!("modswitch|{two_d}|{b}|{size}|{dir:?}|{class}");
+                    rep.case("mod_switch_2n", &key, true);
+                    rep.count("modswitch_cases", 1);
+                    if let Err(p) = guarded(|| poulpy_bin_fhe::blind_rotation::mod_switch_2n(two_d, &mut out, &lwe.to_ref(), dir)) {
+                        rep.violate("mod_switch_2n", desc, format!("panic: {p}"));
+                        continue;
+                    }
+                    let w = size * b;
+                    for i in 0..=n_lwe {
+                        let limbs: Vec<i64> = (0..size).map(|j| lwe.data().at(0, j)[i]).collect();
+                        let mut v = limbs_value_i64(&limbs, b, w); // value * 2^w
+                        if matches!(dir, LookUpTableRotationDirection::Left) {
+                            v = -v;
+                        }
+                        // exact index * 2^(w - log2d); the library may round or truncate, on the full value or on the limbs it keeps: allow one index unit
+                        let got = big(out[i] as i128) << (w - log2d);
+                        let diff = centre(&(got - v), w);
+                        if ratio_units(&diff, w - log2d) > 1.0 {
+                            rep.violate(
+                                "mod_switch_2n",
+                                desc.clone(),
+                                format!("coefficient {i}: limbs {limbs:?} switch to {} but the value is {:.3} index units away (allowed 1)", out[i], ratio_units(&diff, w - log2d)),
+                            );
+                            break;
+                        }
+                    }
+                }
+            }
+        }
     }
 }
 
@@ -175,8 +243,15 @@ fn clear_case(module: &Module<BE>, n: usize, ext: usize, len: usize, b: usize, k
     let layout = LookUpTableLayout { n: (n as u32).into(), extension_factor: ext, k: (k_lut as u32).into(), base2k: (b as u32).into() };
     let size = k_lut.div_ceil(b);
     let w = size * b;
+    // history: half of the tables were already encoded once (another function, possibly another precision) before the set under test
+    let reuse = rng.coin();
+    let g = table_f(rng, len, k_msg, (class + 1) % 4, max_bits);
     let built = guarded(|| {
         let mut lut = LookupTable::alloc(&layout);
+        if reuse {
+            lut.set(module, &g, k_msg);
+            rep.count("clear_set_on_used_table", 1);
+        }
         lut.set(module, &f, k_msg);
         lut
     });
